@@ -5,9 +5,12 @@
    "E": one event over 4 columns + Start/End/Text, every permutation (24), text structures, *-prefixed style names
    "F": full 24-column styles (two styles with different attribute subsets) and full event rows, 3 column orders,
         script info, comments, junk + unknown section, EOL/BOM/radix variants *)
-EXTENDS SsaCodec
+EXTENDS SsaCodec, IOUtils
 CONSTANT FAM
 VARIABLES g, d
+
+\* GEN_WIDE=1 (thorough tier): the families range over the whole space of rendering choices / wider truth sets
+Wide == "GEN_WIDE" \in DOMAIN IOEnv /\ IOEnv.GEN_WIDE = "1"
 vars == <<g, d>>
 
 Perms(S) == {p \in [1..Cardinality(S) -> S] : \A i, j \in DOMAIN p : i # j => p[i] # p[j]}
@@ -57,9 +60,11 @@ TruthsF == {[plus |-> plus, info |-> inf, notes |-> nt,
 
 Truths(fam) == CASE fam = "S" -> TruthsS [] fam = "E" -> TruthsE [] fam = "F" -> TruthsF
 BaseV == [eols |-> {"lf"}, boms |-> {FALSE}, radix |-> {"dec"}, nls |-> {"N"}, stars |-> {FALSE}, noise |-> FALSE]
-Vars(fam) == CASE fam = "S" -> [BaseV EXCEPT !.radix = {"dec", "hex"}]
+WideV(v) == IF Wide THEN [v EXCEPT !.eols = {"lf", "crlf", "cr"}, !.boms = BOOLEAN, !.radix = {"dec", "hex"}] ELSE v
+VarsN(fam) == CASE fam = "S" -> [BaseV EXCEPT !.radix = {"dec", "hex"}]
                [] fam = "E" -> [BaseV EXCEPT !.nls = {"N", "n", "mix"}, !.stars = BOOLEAN]
                [] fam = "F" -> [BaseV EXCEPT !.eols = {"lf", "crlf", "cr"}, !.boms = BOOLEAN, !.radix = {"dec", "hex"}, !.noise = TRUE]
+Vars(fam) == WideV(VarsN(fam))
 SP(fam, G) == IF G.styles = <<>> THEN {<<>>} ELSE IF fam = "S" THEN Perms(StyleCols(G)) ELSE IF fam = "E" THEN {SetToSeq(StyleCols(G))} ELSE ThreeOrders(StyleCols(G))
 EP(fam, G) == IF fam = "E" THEN Perms(EventCols(G)) ELSE IF fam = "S" THEN {SetToSeq(EventCols(G))} ELSE ThreeOrders(EventCols(G))
 
